@@ -74,6 +74,7 @@ PICKS = [
  ("phase0.ProcessEffectiveBalanceUpdates", "balance + DOWNWARD_THRESHOLD < effBalance", "balance + DOWNWARD_THRESHOLD < effective_balance"),
  ("phase0.ProcessEffectiveBalanceUpdates", "effBalance + UPWARD_THRESHOLD < balance", "effective_balance + UPWARD_THRESHOLD < balance"),
  ("phase0.ProcessEth1Vote", "voteCount << 1 > period", "votes.count(eth1_data) * 2 > EPOCHS_PER_ETH1_VOTING_PERIOD * SLOTS_PER_EPOCH"),
+ ("phase0.ProcessEth1Vote", "voteCount >= period", "the votes list holds at most EPOCHS_PER_ETH1_VOTING_PERIOD * SLOTS_PER_EPOCH entries (refuse when full)"),
  ("phase0.ProcessDeposits", "expectedInputCount > uint64(spec.MAX_DEPOSITS)", "min(MAX_DEPOSITS, deposit_count - deposit_index)"),
  ("phase0.ProcessDeposits", "inputCount != expectedInputCount", "len(body.deposits) == min(MAX_DEPOSITS, ...)"),
  ("phase0.ProcessDeposit", "uint64(valIndex) < valCount", "pubkey known to THIS state: index < len(state.validators)"),
